@@ -39,6 +39,10 @@ pub enum Initial {
     /// recovery loops ask the endpoint first — and must be left alone. Real-time scenario, see
     /// `execute_reachable`.
     ReachableInvisiblePid,
+    /// no leftover files: a real authority process (the daemon's own `serve`) is started, clients
+    /// hold event streams open, it is told to shut down (SIGTERM) and a supervisor keeps starting a
+    /// successor. Real processes, real time; see `execute_handover`.
+    ServeShutdownHandover { streams: u8, term_after_ms: u64, restart_every_ms: u64 },
 }
 
 #[derive(Clone, Debug, Serialize, Deserialize, PartialEq)]
@@ -109,6 +113,8 @@ pub fn generate(run_seed: u64, tier: Tier) -> Scenario {
     } else {
         initial
     };
+    let mut hr = Rng::derive(run_seed, "c18:handover");
+    let initial = if hr.chance(1, 90) { Initial::ServeShutdownHandover { streams: hr.range(1, 2) as u8, term_after_ms: hr.below(40), restart_every_ms: hr.range(10, 40) } } else { initial };
     let mut srng = Rng::derive(run_seed, "sched-spec");
     let mut sched = SchedSpec::generate(&mut srng, 300);
     sched.yield_on_reads = true;
@@ -292,9 +298,188 @@ fn reachable_attempt(sc: &Scenario, env: &Env, stats: &mut RunStats) -> Result<O
     Ok(None)
 }
 
+/// One request on a fresh connection, `Connection: close`; returns status and body.
+fn http_once(addr: &str, method: &str, path: &str) -> Option<(u16, String)> {
+    use std::io::{Read, Write};
+    let mut c = std::net::TcpStream::connect(addr).ok()?;
+    c.set_read_timeout(Some(std::time::Duration::from_secs(5))).ok()?;
+    write!(c, "{method} {path} HTTP/1.1\r\nhost: {addr}\r\nconnection: close\r\ncontent-length: 0\r\n\r\n").ok()?;
+    let mut buf = Vec::new();
+    let _ = c.read_to_end(&mut buf);
+    let text = String::from_utf8_lossy(&buf).to_string();
+    let status = text.split(' ').nth(1)?.parse().ok()?;
+    let body = text.split("\r\n\r\n").nth(1).unwrap_or("").to_string();
+    Some((status, body))
+}
+
+fn child_running(c: &mut std::process::Child) -> bool {
+    matches!(c.try_wait(), Ok(None))
+}
+
+fn lock_pid(auth: &std::path::Path) -> Option<i64> {
+    let t = std::fs::read_to_string(auth.join("lock.json")).ok()?;
+    serde_json::from_str::<Value>(&t).ok()?.get("pid")?.as_i64()
+}
+
+/// Shutdown hand-over with real processes: authority A (`ripsim serve-real` = the daemon's `serve`)
+/// advertises its endpoint, clients open event streams and keep them open, A gets SIGTERM, a
+/// supervisor starts successors until one keeps the role. Invariant (never two authorities): once a
+/// successor holds the lock, A must be gone — it is a violation when A is still running with a
+/// client stream still open 600 ms after the successor's lock record was seen (A's own drain of
+/// open streams lasts up to 2 s, so an authority that gives the role away before it stopped
+/// serving is caught well inside that window; an authority that releases last exits within
+/// milliseconds of the release).
+fn execute_handover(sc: &Scenario, env: &Env, streams: u8, term_after_ms: u64, restart_every_ms: u64) -> (Outcome, RunStats) {
+    use std::io::{Read, Write};
+    use std::time::{Duration, Instant};
+    let mut stats = RunStats::default();
+    stats.bump("initial:ServeShutdownHandover", 1);
+    stats.case_hash = crate::prng::fnv1a(serde_json::to_string(sc).unwrap_or_default().as_bytes());
+    stats.nontrivial = true;
+    let base = env.root.join("h");
+    let _ = std::fs::remove_dir_all(&base);
+    let (data, ws) = (base.join("data"), base.join("ws"));
+    let auth = data.join("authority");
+    if std::fs::create_dir_all(&data).is_err() || std::fs::create_dir_all(&ws).is_err() {
+        return (Outcome::Harness("mkdir".into()), stats);
+    }
+    let exe = match std::env::current_exe() {
+        Ok(e) => e,
+        Err(e) => return (Outcome::Harness(format!("exe: {e}")), stats),
+    };
+    let spawn = || {
+        std::process::Command::new(&exe)
+            .arg("serve-real")
+            .env("RIP_DATA_DIR", &data)
+            .env("RIP_WORKSPACE_ROOT", &ws)
+            .env("RIP_SERVER_ADDR", "127.0.0.1:0")
+            .env("HOME", base.join("home"))
+            .current_dir(&ws)
+            .stdin(std::process::Stdio::null())
+            .stdout(std::process::Stdio::null())
+            .stderr(std::process::Stdio::null())
+            .spawn()
+    };
+    let mut children: Vec<std::process::Child> = Vec::new();
+    let finish = |children: &mut Vec<std::process::Child>, o: Outcome, stats: RunStats| {
+        for c in children.iter_mut() {
+            let _ = c.kill();
+            let _ = c.wait();
+        }
+        (o, stats)
+    };
+    let mut a = match spawn() {
+        Ok(c) => c,
+        Err(e) => return (Outcome::Harness(format!("spawn: {e}")), stats),
+    };
+    let a_pid = a.id() as i64;
+    // wait for A's endpoint advertisement
+    let t0 = Instant::now();
+    let endpoint = loop {
+        if let Ok(t) = std::fs::read_to_string(auth.join("meta.json")) {
+            if let Some(e) = serde_json::from_str::<Value>(&t).ok().and_then(|v| v.get("endpoint").and_then(|e| e.as_str()).map(|s| s.to_string())) {
+                break e;
+            }
+        }
+        if t0.elapsed() > Duration::from_secs(15) || !child_running(&mut a) {
+            children.push(a);
+            return finish(&mut children, Outcome::Harness("the authority process did not advertise an endpoint".into()), stats);
+        }
+        std::thread::sleep(Duration::from_millis(5));
+    };
+    let addr = endpoint.trim_start_matches("http://").to_string();
+    // clients: open event streams and keep them
+    let mut open_streams: Vec<std::net::TcpStream> = Vec::new();
+    for _ in 0..streams {
+        let sid = http_once(&addr, "POST", "/sessions").and_then(|(st, b)| if st == 201 { serde_json::from_str::<Value>(&b).ok() } else { None }).and_then(|v| v.get("session_id").and_then(|s| s.as_str()).map(|s| s.to_string()));
+        let Some(sid) = sid else {
+            children.push(a);
+            return finish(&mut children, Outcome::Harness("could not create a session on the authority".into()), stats);
+        };
+        let Ok(mut c) = std::net::TcpStream::connect(&addr) else {
+            children.push(a);
+            return finish(&mut children, Outcome::Harness("connect".into()), stats);
+        };
+        let _ = write!(c, "GET /sessions/{sid}/events HTTP/1.1\r\nhost: {addr}\r\naccept: text/event-stream\r\n\r\n");
+        let _ = c.set_read_timeout(Some(Duration::from_secs(5)));
+        let mut head = [0u8; 256];
+        let _ = c.read(&mut head);
+        let _ = c.set_nonblocking(true);
+        open_streams.push(c);
+    }
+    let stream_open = |c: &mut std::net::TcpStream| -> bool {
+        let mut buf = [0u8; 4096];
+        loop {
+            match c.read(&mut buf) {
+                Ok(0) => return false,
+                Ok(_) => continue,
+                Err(e) if e.kind() == std::io::ErrorKind::WouldBlock => return true,
+                Err(_) => return false,
+            }
+        }
+    };
+    std::thread::sleep(Duration::from_millis(term_after_ms));
+    unsafe {
+        libc::syscall(libc::SYS_kill, a_pid as libc::pid_t, libc::SIGTERM);
+    }
+    stats.bump("fault:authority_told_to_shut_down_with_open_streams", 1);
+    // supervisor: keep starting successors until one holds the lock
+    let t_term = Instant::now();
+    let mut successor_pid: Option<i64> = None;
+    let mut last_spawn = Instant::now() - Duration::from_secs(1);
+    while t_term.elapsed() < Duration::from_secs(12) {
+        if let Some(p) = lock_pid(&auth) {
+            if p != a_pid && children.iter().any(|c| c.id() as i64 == p) {
+                successor_pid = Some(p);
+                break;
+            }
+        }
+        if last_spawn.elapsed() >= Duration::from_millis(restart_every_ms) {
+            children.retain_mut(|c| child_running(c));
+            if children.len() < 3 {
+                if let Ok(c) = spawn() {
+                    children.push(c);
+                    stats.bump("successor_starts", 1);
+                }
+            }
+            last_spawn = Instant::now();
+        }
+        std::thread::sleep(Duration::from_millis(2));
+    }
+    let Some(succ) = successor_pid else {
+        children.push(a);
+        return finish(&mut children, Outcome::Violation(Violation { class: "store_not_recovered".into(), signature: "store_not_recovered:after_orderly_shutdown".into(), detail: format!("authority pid {a_pid} was told to shut down; no successor could take the role within 12 s") }), stats);
+    };
+    let took_ms = t_term.elapsed().as_millis();
+    stats.bump("handover_completed", 1);
+    let at_takeover = child_running(&mut a) && open_streams.iter_mut().any(|c| stream_open(c));
+    let mut verdict = None;
+    if at_takeover {
+        std::thread::sleep(Duration::from_millis(600));
+        let still = child_running(&mut a) && open_streams.iter_mut().any(|c| stream_open(c));
+        if still {
+            verdict = Some(Violation {
+                class: "two_authorities".into(),
+                signature: "two_authorities:old_authority_still_serving_after_handover".into(),
+                detail: format!("authority pid {a_pid} got SIGTERM with {} client stream(s) open; successor pid {succ} held lock.json {took_ms} ms later, and 600 ms after that the old authority was still running with a client stream still open (it gave the role away before it stopped serving)", open_streams.len()),
+            });
+        } else {
+            stats.bump("old_authority_seen_alive_at_takeover_but_gone_600ms_later", 1);
+        }
+    }
+    children.push(a);
+    match verdict {
+        Some(v) => finish(&mut children, Outcome::Violation(v), stats),
+        None => finish(&mut children, Outcome::Ok, stats),
+    }
+}
+
 pub fn execute(sc: &Scenario, env: &Env) -> (Outcome, RunStats) {
     if sc.initial == Initial::ReachableInvisiblePid {
         return execute_reachable(sc, env);
+    }
+    if let Initial::ServeShutdownHandover { streams, term_after_ms, restart_every_ms } = &sc.initial {
+        return execute_handover(sc, env, *streams, *term_after_ms, *restart_every_ms);
     }
     let mut stats = RunStats::default();
     let dirs = storesim::begin_run(&env.root, sc.sim_seed, sc.clock_quantum_ms * 1_000_000);
@@ -352,7 +537,7 @@ pub fn execute(sc: &Scenario, env: &Env) -> (Outcome, RunStats) {
             g.lock_creator = Some(EXTERNAL_LIVE_PID);
             g.holders.push(EXTERNAL_LIVE_PID);
         }
-        Initial::ReachableInvisiblePid => {}
+        Initial::ReachableInvisiblePid | Initial::ServeShutdownHandover { .. } => {}
         Initial::DeadMetaLiveLock => {
             std::fs::write(auth.join("lock.json"), lock_json(EXTERNAL_LIVE_PID)).ok();
             std::fs::write(auth.join("meta.json"), meta_json(EXTERNAL_DEAD_PID)).ok();
@@ -690,7 +875,7 @@ impl Check for C18 {
         scenario.clone()
     }
     fn rule(&self) -> String {
-        "one evaluation = 2-5 contenders (distinct simulated pids) starting at staggered points from one of ten leftover states (lock and meta of an authority that answers on its endpoint while its pid is invisible to the contenders — a real-time scenario outside the scheduler: clients must attach, servers must be refused, both files keep their bytes —, lock and meta of a live authority in a record layout this build cannot parse, no files, lock of a dead pid, lock+meta of a dead pid, half-written lock, empty lock, lock of a live pid with/without meta, meta of a dead pid only, dead meta next to a live lock), each running the real acquire_authority_lock_with_recovery (1 in 4 scenarios: one contender is a client running rip-cli's attach / recovery loop instead — it cleans up and spawns, never holds); a contender that gets the role optionally writes meta, holds for 0-5 steps, then crashes (liveness flip, guard leaked) or releases; clock quantum 1-4 ms per read with optional jumps of 0.5-5 s; invariants at every scheduling point: at most one live holder, no rename/unlink of lock.json or meta.json that belongs to a live, unreleased pid by another pid; afterwards a fresh contender must acquire (or, with an external live authority, must be refused); distinct = hash of the (actor, point-class) trace; non-trivial = at least 2 context switches".into()
+        "one evaluation = 2-5 contenders (distinct simulated pids); 1 in 90 evaluations is a shutdown hand-over with real processes (the daemon's own serve loop told to shut down with client streams open while a supervisor starts successors: once a successor holds the lock the old authority must be gone); the others: contenders starting at staggered points from one of ten leftover states (lock and meta of an authority that answers on its endpoint while its pid is invisible to the contenders — a real-time scenario outside the scheduler: clients must attach, servers must be refused, both files keep their bytes —, lock and meta of a live authority in a record layout this build cannot parse, no files, lock of a dead pid, lock+meta of a dead pid, half-written lock, empty lock, lock of a live pid with/without meta, meta of a dead pid only, dead meta next to a live lock), each running the real acquire_authority_lock_with_recovery (1 in 4 scenarios: one contender is a client running rip-cli's attach / recovery loop instead — it cleans up and spawns, never holds); a contender that gets the role optionally writes meta, holds for 0-5 steps, then crashes (liveness flip, guard leaked) or releases; clock quantum 1-4 ms per read with optional jumps of 0.5-5 s; invariants at every scheduling point: at most one live holder, no rename/unlink of lock.json or meta.json that belongs to a live, unreleased pid by another pid; afterwards a fresh contender must acquire (or, with an external live authority, must be refused); distinct = hash of the (actor, point-class) trace; non-trivial = at least 2 context switches".into()
     }
     fn assumptions(&self) -> Vec<String> {
         vec![
